@@ -53,7 +53,7 @@ def run(R):
     R.rule("C19.join", "while the joined file is loaded the flag is sampled at least every 10 lines")
     R.rule("C19.flag", "the flag is stored only by the query start (true) and the Ctrl-C handler (false)")
     for name in (L.FILE_EXEC, L.FOLLOW_EXEC):
-        f = R.need_fn(name)
+        f = L.exec_view(R, name)
         sn = "::".join(f.spath.split("::")[-2:])
         loops = [l for l in L.input_loops(f) if L.is_line_loop(l) and l.ok]
         if len(loops) != 1:
@@ -112,7 +112,7 @@ def run(R):
         else:
             R.ok("C19.quiet", sn, "interrupt path constructs no error", ld.loc())
     # join loader
-    jf = R.need_fn(L.JOIN_EXEC)
+    jf = L.exec_view(R, L.JOIN_EXEC)
     loads = [c for c in PR.calls_matching(jf, L.ATOMIC_LOAD) if _is_running_load(jf, c)]
     rems = [(i, s) for i, s in jf.stmts() if s["rv"]["k"] == "binop" and s["rv"]["op"] == "Rem"]
     ok = False
